@@ -222,6 +222,8 @@ def c05() -> List[M]:
           "                self._retry += 1\n                self.retries -= 0\n                if self._lock and self._lock.locked():\n                    self._lock.release()\n                if not self.keep_alive:", "C05.R1"),
         M("C05", "ensure-lock-keeps-old-transport", P, "        self._running_loop = asyncio.get_event_loop()\n        self._close_transport()\n", "        self._running_loop = asyncio.get_event_loop()\n", "C05.R3"),
         M("C05", "ensure-lock-ignores-loop", P, "        if self._lock and self._running_loop == asyncio.get_event_loop():", "        if self._lock:", "C05.R3"),
+        M("C05", "revert-fix-close-transport-cancels-timer", P, "    def _close_transport(self) -> None:\n        if self._timer:\n            self._timer.cancel()\n            self._timer = None\n        if self._transport:", "    def _close_transport(self) -> None:\n        if self._transport:", "C05.R4"),
+        M("C05", "udp-error-received-skips-close", P, "            logger.debug(\"Response already handled.\")\n        self._close_transport()", "            logger.debug(\"Response already handled.\")", "C05.R4"),
         M("C05", "benign-keyword-arguments", INIT, "        inv = ET(host, port, comm_addr, timeout, retries)", "        inv = ET(host, port, comm_addr, retries=retries, timeout=timeout)", "clean"),
     ]
 
@@ -248,6 +250,8 @@ def c06() -> List[M]:
           "            await response_future\n            return self.response_future\n        except asyncio.CancelledError:\n            if self._retry < self.retries:\n                if self._timer:", "C06.R5"),
         M("C06", "tcp-send-request-ignores-given-future", P, "        self.response_future = response_future\n        self._partial_data = None\n        self._partial_missing = 0\n        payload = command.request_bytes()\n        if self._retry > 0:\n            logger.debug(\"Sending: %s - retry #%s/%s\", self.command, self._retry, self.retries)\n        else:\n            logger.debug(\"Sending: %s\", self.command)\n        self._transport.write(payload)",
           "        self.response_future = asyncio.get_running_loop().create_future()\n        self._partial_data = None\n        self._partial_missing = 0\n        payload = command.request_bytes()\n        if self._retry > 0:\n            logger.debug(\"Sending: %s - retry #%s/%s\", self.command, self._retry, self.retries)\n        else:\n            logger.debug(\"Sending: %s\", self.command)\n        self._transport.write(payload)", "C06.R5"),
+        M("C06", "udp-timer-cancel-moved-to-success-branch", P, "        \"\"\"On datagram received\"\"\"\n        if self._timer:\n            self._timer.cancel()\n            self._timer = None\n        try:", "        \"\"\"On datagram received\"\"\"\n        try:", "C06.R6"),
+        M("C06", "tcp-timer-not-cancelled-on-data", P, "        \"\"\"On data received\"\"\"\n        if self._timer:\n            self._timer.cancel()\n", "        \"\"\"On data received\"\"\"\n", "C06.R6"),
         M("C06", "benign-udp-finally-close-before-release", P, UDP_FINALLY, "        finally:\n            if not self.keep_alive:\n                self._close_transport()\n            if self._lock and self._lock.locked():\n                self._lock.release()\n", "clean"),
     ]
 
